@@ -208,20 +208,21 @@ fn c11_cow_values() {
 fn cow_values(n: usize) {
     let (tags, vals, lens, n) = any_input(n);
     let owned: [bool; K] = kani::any();
-    let mut elements: Vec<(Tag, Cow<[u8]>)> = Vec::new();
+    // a fixed-size array of pairs (no Vec of Cows): only the first n entries are handed to the wrapper
     let mut n_owned = 0;
     let mut i = 0;
     while i < n {
-        let v: Cow<[u8]> = if owned[i] {
+        if owned[i] {
             n_owned += 1;
-            Cow::Owned(vals[i][..lens[i]].to_vec())
-        } else {
-            Cow::Borrowed(&vals[i][..lens[i]])
-        };
-        elements.push((Tag::new_from_u32(tags[i]), v));
+        }
         i += 1;
     }
-    let w = MessageWrapper::new_from_slice(&mut elements[..]).unwrap();
+    let mk = |i: usize| -> (Tag, Cow<[u8]>) {
+        let v: Cow<[u8]> = if owned[i] { Cow::Owned(vals[i][..lens[i]].to_vec()) } else { Cow::Borrowed(&vals[i][..lens[i]]) };
+        (Tag::new_from_u32(tags[i]), v)
+    };
+    let mut elements: [(Tag, Cow<[u8]>); K] = std::array::from_fn(mk);
+    let w = MessageWrapper::new_from_slice(&mut elements[..n]).unwrap();
     let mut sink = Rec::new();
     w.to_rough_tlv(&mut sink);
     assert!(sink.len == w.rough_tlv_len());
